@@ -100,8 +100,8 @@ func genArgs(t *rapid.T, label string, minLen int) []model.B {
 
 var (
 	authenActions  = []byte{1, 2, 4}
-	authenTypes    = []byte{1, 2, 3, 4, 5, 6}       // START: NotSet (0) is refused
-	authenTypes0   = []byte{0, 1, 2, 3, 4, 5, 6}    // author/acct
+	authenTypes    = []byte{1, 2, 3, 4, 5, 6}    // START: NotSet (0) is refused
+	authenTypes0   = []byte{0, 1, 2, 3, 4, 5, 6} // author/acct
 	authenServices = []byte{0, 1, 2, 3, 4, 5, 6, 7, 8, 9}
 	authenStatuses = []byte{1, 2, 3, 4, 5, 6, 7}
 	authenMethods  = []byte{0, 1, 2, 3, 4, 5, 6, 8, 0x10}
